@@ -523,3 +523,7 @@ mod tests {
         fast_pairing(&g1, &g2);
     }
 }
+
+#[cfg(john_yu_sm9_core_verif)]
+#[path = "verif_hooks_pairings.rs"]
+pub mod verif_hooks;
